@@ -1,4 +1,5 @@
 import Proofs.DepGraph
+import Proofs.DepGraphMerge
 /-!
 # C16 — the dependency graph mirrors a plain node/edge set under any edit history
 
@@ -141,6 +142,94 @@ theorem history_errors (ops : List Op) (op : Op) :
 
 /-- non-vacuity: a concrete history with a removal in the middle of the node list (swap with last) -/
 example : (run G.empty [.addDep 1 2, .addDep 2 3, .addDep 1 3, .removeNode 2]).edgePairs = [(1, 3)] := by decide
+
+/-! ### Histories over several graphs: edits, copies, merges, sums -/
+
+/-- the public calls on a family of graph variables `g 0, g 1, …` (all empty at the start) -/
+inductive MOp where
+  | edit (i : Nat) (op : Op)          -- one editing call on g_i
+  | copy (dst src : Nat)              -- g_dst = g_src.copy()
+  | merge (dst src : Nat)             -- g_dst.merge(g_src)   (in place)
+  | plus (dst a b : Nat)              -- g_dst = g_a + g_b
+
+def supd {α : Type} (f : Nat → α) (i : Nat) (v : α) : Nat → α := fun j => if j = i then v else f j
+
+def mstep (st : Nat → G) : MOp → (Nat → G)
+  | .edit i op => supd st i (step (st i) op).1
+  | .copy d s => supd st d (st s).copy
+  | .merge d s => match (st d).merge (st s) with | .ok g' => supd st d g' | .error _ => st
+  | .plus d a b => match (st a).copy.merge (st b) with | .ok g' => supd st d g' | .error _ => st
+
+def Spec.union (s t : Spec) : Spec := ⟨fun z => s.N z ∨ t.N z, fun u w => s.E u w ∨ t.E u w⟩
+
+def mspecStep (sp : Nat → Spec) : MOp → (Nat → Spec)
+  | .edit i op => supd sp i (specStep (sp i) op).1
+  | .copy d s => supd sp d (sp s)
+  | .merge d s => supd sp d ((sp d).union (sp s))
+  | .plus d a b => supd sp d ((sp a).union (sp b))
+
+theorem merge_refines_spec {g h : G} {s t : Spec} (hg : Refines g s) (hh : Refines h t) :
+    ∃ g', g.merge h = .ok g' ∧ Refines g' (s.union t) := by
+  obtain ⟨g', hm, hi, hn, he⟩ := merge_refines hg.1 hh.1
+  refine ⟨g', hm, hi, ?_, ?_⟩
+  · intro z; rw [hn z, hg.2.1 z, hh.2.1 z]; rfl
+  · intro u w; rw [he u w, hg.2.2 u w, hh.2.2 u w]; rfl
+
+theorem copy_refines_spec {g : G} {s : Spec} (hg : Refines g s) : Refines g.copy s := by
+  obtain ⟨hi, hn, he⟩ := copy_refines hg.1
+  exact ⟨hi, fun z => by rw [hn z, hg.2.1 z], fun u w => by rw [he u w, hg.2.2 u w]⟩
+
+theorem supd_same {α : Type} (f : Nat → α) (i : Nat) (v : α) : supd f i v i = v := by simp [supd]
+theorem supd_other {α : Type} (f : Nat → α) (i j : Nat) (v : α) (h : j ≠ i) : supd f i v j = f j := by simp [supd, h]
+
+theorem mstep_refines {st : Nat → G} {sp : Nat → Spec} (h : ∀ i, Refines (st i) (sp i)) (op : MOp) :
+    ∀ i, Refines (mstep st op i) (mspecStep sp op i) := by
+  intro i
+  cases op with
+  | edit j o =>
+    simp only [mstep, mspecStep]
+    by_cases e : i = j
+    · subst e; rw [supd_same, supd_same]; exact (step_refines (h i) o).1
+    · rw [supd_other _ _ _ _ e, supd_other _ _ _ _ e]; exact h i
+  | copy d s =>
+    simp only [mstep, mspecStep]
+    by_cases e : i = d
+    · subst e; rw [supd_same, supd_same]; exact copy_refines_spec (h s)
+    · rw [supd_other _ _ _ _ e, supd_other _ _ _ _ e]; exact h i
+  | merge d s =>
+    obtain ⟨g', hm, hr⟩ := merge_refines_spec (h d) (h s)
+    simp only [mstep, mspecStep]
+    rw [hm]
+    simp only []
+    by_cases e : i = d
+    · subst e; rw [supd_same, supd_same]; exact hr
+    · rw [supd_other _ _ _ _ e, supd_other _ _ _ _ e]; exact h i
+  | plus d a b =>
+    obtain ⟨g', hm, hr⟩ := merge_refines_spec (copy_refines_spec (h a)) (h b)
+    simp only [mstep, mspecStep]
+    rw [hm]
+    simp only []
+    by_cases e : i = d
+    · subst e; rw [supd_same, supd_same]; exact hr
+    · rw [supd_other _ _ _ _ e, supd_other _ _ _ _ e]; exact h i
+
+/-- **After any sequence of edits, copies, merges and sums over any number of graphs, every graph denotes exactly the
+nodes and edges of the corresponding mathematical graph** — in particular a copy, and a graph derived with `+`, is not
+affected by what happens to the graphs it came from afterwards (its specification only changes with its own calls). -/
+theorem multi_history_refines (ops : List MOp) :
+    ∀ i, Refines (ops.foldl mstep (fun _ => G.empty) i) (ops.foldl mspecStep (fun _ => Spec.empty) i) := by
+  have base : ∀ i : Nat, Refines ((fun _ => G.empty) i) ((fun _ => Spec.empty) i) := by
+    intro i
+    show Refines G.empty Spec.empty
+    exact ⟨GInv.empty, by simp [G.Node, G.empty, RList.empty, Spec.empty],
+      by intro u w; simp [G.Edge, G.empty, RList.empty, Spec.empty]⟩
+  have gen : ∀ (ops : List MOp) (st : Nat → G) (sp : Nat → Spec), (∀ i, Refines (st i) (sp i)) →
+      ∀ i, Refines (ops.foldl mstep st i) (ops.foldl mspecStep sp i) := by
+    intro ops
+    induction ops with
+    | nil => intro st sp h; exact h
+    | cons op rest ih => intro st sp h; exact ih _ _ (mstep_refines h op)
+  exact gen ops _ _ base
 
 /-! ### Queries read through the abstraction -/
 
